@@ -4,7 +4,8 @@ Sub-oracles
   probe_keys      lab schedules with key-recording ProbeKernels through EngineBuilder (int seed or PRNG key, jitter functions
                   none / deterministic / key-revealing, replicated or per-chain initial states): bit-identical reruns,
                   int seed == PRNGKey(seed), every key received by any kernel call (init, start, transition, end, tune,
-                  end_warmup) in any chain is distinct, first stored sample == supplied initial value after jitter
+                  end_warmup) in any chain is distinct - also from the keys handed to 0-3 key-recording quantity generators, whose
+                  output is part of the compared results -, first stored sample == supplied initial value after jitter
   random_kernels  RW / IWLS / NUTS / HMC on a small target through EngineBuilder with per-chain initial states: reruns are
                   bit-identical and perturbing one chain's initial value leaves every other chain's trajectory bit-identical
 """
@@ -25,6 +26,7 @@ RULE = ("cases = engine specs through EngineBuilder: seed (int or key), 1-4 chai
         "that changes a value); distinct = SHA-1 of the spec")
 ASSUMPTIONS = [
     "key distinctness is checked on the keys actually observed in the run (all kernel calls x chains x iterations), not over the key space",
+    "a kernel call's key counts as distinct only if no quantity generator of the same run received it either (both consume the engine's per-chain key stream)",
     "key-revealing jitter adds (key_word >> 9) to an integer-valued float32 < 2**23, which is exact, so the jitter key can be read back",
 ]
 SHARDS = {"quick": 16, "thorough": 16}
@@ -49,6 +51,9 @@ def gen_probe():
         sp["seed"] = draw(st.one_of(st.integers(0, 2**20), st.integers(0, 2**20), st.integers(2**32, 2**32 + 2**20), st.integers(-2**20, -1)))
         sp["chains"] = draw(st.sampled_from([1, 2, 2, 3, 3, 4]))
         sp["recycle"] = draw(st.booleans())
+        # quantity generators are part of the results and draw from the same per-chain key stream as the kernels (0 = feature unused;
+        # as many generators as kernels is the shape in which jax.random.split(k, n) of two different parents could collide)
+        sp["gens"] = draw(st.sampled_from([0, 0, 1, 2, 3, len(sp["kernels"]), len(sp["kernels"])]))
         kkeys = [k for kk in sp["kernels"] for k in kk["keys"]]
         sp["as_key"] = draw(st.booleans())
         sp["multi"] = draw(st.booleans())
@@ -73,6 +78,24 @@ def _reveal(key, val):
     return val + add
 
 
+class KeyGen:
+    """Quantity generator recording the PRNG key it is handed (per chain and iteration)."""
+    error_book = {0: "no errors"}
+
+    def __init__(self, ident):
+        self.identifier = ident
+        self._model = None
+
+    def set_model(self, model):
+        self._model = model
+
+    def has_model(self):
+        return self._model is not None
+
+    def generate(self, prng_key, model_state, epoch):
+        return {"key": el._key_words(prng_key), "error_code": jnp.int32(0)}
+
+
 def build(spec, seed_as_key=None, perturb=None, seed=None, second_build=False):
     s = spec["seed"] if seed is None else seed
     as_key = spec["as_key"] if seed_as_key is None else seed_as_key
@@ -94,6 +117,8 @@ def build(spec, seed_as_key=None, perturb=None, seed=None, second_build=False):
                 single[kk] = jnp.asarray(single[kk]) + 17
     for k in el.make_kernels(spec, []):
         b.add_kernel(k)
+    for g in range(spec.get("gens", 0)):
+        b.add_quantity_generator(KeyGen(f"gen{g}"))
     b.positions_included = list(spec["included"])
     b.positions_excluded = []
     fns = {}
@@ -118,12 +143,14 @@ def everything(res):
     out = {"pos": res.get_samples(), "ti": res.transition_infos.combine_all().unwrap()}
     if res.kernel_states.is_some():
         out["ks"] = res.kernel_states.unwrap().combine_all().unwrap()
+    if res.generated_quantities.is_some():
+        out["gq"] = res.generated_quantities.unwrap().combine_all().unwrap()
     return out
 
 
 def oracle_probe(spec):
     spec = dict(spec, excluded=[])
-    det = f"epochs={spec['epochs']} chains={spec['chains']} multi={spec['multi']} jitter={spec['jitter']} as_key={spec['as_key']}"
+    det = f"epochs={spec['epochs']} chains={spec['chains']} multi={spec['multi']} jitter={spec['jitter']} as_key={spec['as_key']} gens={spec.get('gens', 0)}"
     if spec["seed"] % 3 == 0:
         res, states, res_again = build(spec, second_build=True)
         require(tree_equal_bits(everything(res), everything(res_again)), "second-build-from-same-builder-differs", det)
@@ -156,6 +183,14 @@ def oracle_probe(spec):
             for c in range(C):
                 u = np.unique(packed[c])
                 allkeys.append(u[u != 0])
+    n_kernel_keys = int(sum(len(a) for a in allkeys))
+    # keys handed to quantity generators come from the same per-chain stream: a kernel call's key is not "distinct" if a generator in the
+    # same run was handed the same one (their draws would be perfectly dependent)
+    for ident, q in base.get("gq", {}).items():
+        k = np.asarray(q["key"]).astype(np.uint64)                     # (C, T + 1, 2)
+        allkeys.append((k[..., 0] << np.uint64(32) | k[..., 1]).reshape(-1))
+    if spec.get("gens", 0):
+        require("gq" in base and len(base["gq"]) == spec["gens"], "generated-quantities-missing", det)
     flat = np.concatenate(allkeys)
     uniq, counts = np.unique(flat, return_counts=True)
     # a life-cycle key legitimately shows up once per (field, chain, kernel, event); transition keys once
@@ -196,8 +231,9 @@ def oracle_probe(spec):
     jit_on = any(v != "none" for v in spec["jitter"].values())
     nt = C >= 2 and len(spec["kernels"]) >= 2 and jit_on and (spec["multi"] or moved)
     cls = [f"chains{C}", f"kernels{len(spec['kernels'])}", "multi" if spec["multi"] else "replicated", "jitter" if jit_on else "nojitter",
-           "reveal" if reveal_parts else "noreveal", "as_key" if spec["as_key"] else "int-seed", "perturbed-moved" if moved else "no-move"]
-    return {"nt": bool(nt), "cls": cls, "extra": {"keys_checked": int(len(flat))}}
+           "reveal" if reveal_parts else "noreveal", "as_key" if spec["as_key"] else "int-seed", "perturbed-moved" if moved else "no-move",
+           f"gens{spec.get('gens', 0)}" + ("=kernels" if spec.get("gens", 0) == len(spec["kernels"]) else "")]
+    return {"nt": bool(nt), "cls": cls, "extra": {"keys_checked": int(len(flat)), "kernel_keys": n_kernel_keys}}
 
 
 # ------------------------------------------------------------------------------ random kernels
